@@ -26,6 +26,7 @@ type SpecDB struct {
 	immutable    map[string]bool // type keys ("pkg/path.Type")
 	pkgInvs      map[string][]*Clause
 	private      map[string]bool
+	setGhostHeaps map[string]bool // lazily computed, see isSetGhostHeap
 }
 
 func newSpecDB() *SpecDB {
@@ -133,6 +134,25 @@ func (db *SpecDB) isPrivateHeap(heap string) bool {
 		}
 	}
 	return false
+}
+
+// isSetGhostHeap: the heap of a scalar ghost that some contract assigns with
+// "set" clauses. Such a ghost is written by set clauses only: calls of unknown
+// code leave it alone (they cannot execute set clauses unless they call back
+// into functions under contract, which is assumed not to happen, as for
+// private types).
+func (db *SpecDB) isSetGhostHeap(heap string) bool {
+	if db.setGhostHeaps == nil {
+		db.setGhostHeaps = map[string]bool{}
+		for _, fc := range db.byName {
+			for _, n := range fc.setGhosts() {
+				if g := db.ghosts[n]; g != nil && !g.IsMap {
+					db.setGhostHeaps[g.heapName()] = true
+				}
+			}
+		}
+	}
+	return db.setGhostHeaps[heap]
 }
 
 func (db *SpecDB) ghost(name string) *Ghost {
